@@ -439,8 +439,85 @@ def r04_ghi(prog: Program, chk: Check) -> None:
     )
 
 
+# ------------------------------------------------------------------- R04.j
+def r04_j(prog: Program, chk: Check) -> None:
+    from . import assign_model as amod
+
+    chk.rule(
+        "R04.j",
+        "type-to-type assignability as a finite model (same interpretation as C03 R03.e) on every ordered pair of 36 static types (Any, Never, 12 literals, 8 classes, 6 unions, two large "
+        "unions): acceptance implies inclusion of the member sets; every type accepts itself, Never and - outside exclude-any mode - Any, and Any accepts everything; a union on the "
+        "right is accepted iff every member is, a union on the left accepts what one of its members accepts; exclude-any mode only removes acceptances",
+        floor=6,
+    )
+    am = amod.AssignModel(prog)
+    lits = [am.known(o) for o in amod.UNIVERSE]
+    typs = [am.typed(t) for t in amod.TYPES]
+    unions = [am.union([am.typed(a), am.typed(b)]) for a, b in ((int, str), (bool, str), (float, type(None)), (complex, amod.Color))] + [am.union([am.known(1), am.known("a")]), am.union([am.known(True), am.typed(str)])]
+    big = am.with_known_subvals(am.union([am.known(i) for i in range(9)] + [am.known("a"), am.typed(str)]))
+    big2 = am.with_known_subvals(am.union([am.known(i) for i in range(12)]))
+    vals = [am.any(), am.never] + lits + typs + unions + [big, big2]
+    classes: Dict[str, List[dict]] = {k: [] for k in ("acceptance-implies-inclusion", "reflexive", "Never-accepted-by-all", "Any-accepted-and-accepting", "union-on-the-right-is-forall", "union-on-the-left-is-exists", "exclude-any-only-removes", "no-crash")}
+    counts = {k: 0 for k in classes}
+    n = 0
+    table: Dict[Tuple[int, int], bool] = {}
+
+    def has_any(v) -> bool:
+        return v._kind == "AnyValue" or any(x._kind == "AnyValue" for x in (v._attrs.get("vals") or ()))
+
+    for li, L in enumerate(vals):
+        for ri, R in enumerate(vals):
+            n += 1
+            r = am.can_assign(L, R)
+            d = {"left": amod.show(L), "right": amod.show(R)}
+            counts["no-crash"] += 1
+            if isinstance(r, tuple):
+                classes["no-crash"].append({**d, "error": r[1]})
+                continue
+            table[(li, ri)] = r
+            if not has_any(L) and not has_any(R):
+                counts["acceptance-implies-inclusion"] += 1
+                extra = amod.members(R) - amod.members(L)
+                if r and extra:
+                    classes["acceptance-implies-inclusion"].append({**d, "right_only_objects": [repr(amod.UNIVERSE[i]) for i in sorted(extra)]})
+            if li == ri:
+                counts["reflexive"] += 1
+                if not r:
+                    classes["reflexive"].append(d)
+            if R is am.never:
+                counts["Never-accepted-by-all"] += 1
+                if not r:
+                    classes["Never-accepted-by-all"].append(d)
+            if L._kind == "AnyValue" or R._kind == "AnyValue":
+                counts["Any-accepted-and-accepting"] += 1
+                if not r:
+                    classes["Any-accepted-and-accepting"].append(d)
+            r2 = am.can_assign(L, R, exclude_any=True)
+            counts["exclude-any-only-removes"] += 1
+            if r2 is True and r is False:
+                classes["exclude-any-only-removes"].append(d)
+    for (li, ri), r in table.items():
+        L, R = vals[li], vals[ri]
+        if R._kind == "MultiValuedValue" and R._attrs["vals"] and not has_any(L):
+            counts["union-on-the-right-is-forall"] += 1
+            parts = [am.can_assign(L, m) for m in R._attrs["vals"]]
+            if all(isinstance(p_, bool) for p_ in parts) and r != all(parts):
+                classes["union-on-the-right-is-forall"].append({"left": amod.show(L), "right": amod.show(R), "whole": r, "members": parts})
+        if L._kind == "MultiValuedValue" and L._attrs["vals"] and R._kind != "MultiValuedValue" and not has_any(R):
+            counts["union-on-the-left-is-exists"] += 1
+            parts = [am.can_assign(m, R) for m in L._attrs["vals"]]
+            if all(isinstance(p_, bool) for p_ in parts) and r != any(parts):
+                classes["union-on-the-left-is-exists"].append({"left": amod.show(L), "right": amod.show(R), "whole": r, "members": parts})
+    chk.model_evaluations += n
+    chk.analysed["assign_model_types"] = {"pairs": n}
+    site = prog.site("value", prog.find_method("TypedValue", "can_assign")[1])  # type: ignore[index]
+    for k, bad in classes.items():
+        chk.ob("R04.j", f"value::assignability-model::{k}", not bad, site, f"{counts[k]} cases, {len(bad)} failing" + (f"; first: {bad[0]}" if bad else ""), witness=bad[:4])
+
+
 def run(prog: Program, chk: Check) -> None:
     guard(chk, r04_ghi, prog, chk)
     guard(chk, r04_abc, prog, chk)
     guard(chk, r04_d, prog, chk)
     guard(chk, r04_ef, prog, chk)
+    guard(chk, r04_j, prog, chk)
